@@ -204,6 +204,9 @@ def _save_file(
         assert tensor is not None
         if tensor.nbytes < size_threshold_bytes:
             continue
+        if tensor.dtype == ir.DataType.STRING:
+            # String tensors cannot be stored as external data: keep them in the model
+            continue
         tensors_to_save.append(tensor)
         values_to_save.append(value)
 
